@@ -945,7 +945,12 @@ func (h *histRun) checkQuiescent(final bool) {
 			h.stat("c01_compared", 1)
 			if !JSONEqual(exp, got) {
 				sig := "diverged"
-				if h.hasNote("sub.unsend", c.CID, rid) {
+				if h.hasNote("populate.deleted", c.CID, rid) {
+					// finding C: revived from the snapshot of before the delete
+					// event (the service has recreated the resource since); the
+					// revived subscription gets no events
+					sig = "diverged.populateDeleted"
+				} else if h.hasNote("sub.unsend", c.CID, rid) {
 					sig = "diverged.afterUnsend"
 				}
 				h.viol(Viol{Prop: "C01", Conn: c.Idx, T: now, RID: rid, Sig: sig,
